@@ -66,7 +66,7 @@ func (e *Engine) val(fr *Frame, v ssa.Value) Value {
 	case *ssa.Parameter:
 		for i, p := range fr.Fn.Params {
 			if p == x {
-				return fr.Params[i]
+				return fr.Params[fr.POff+i]
 			}
 		}
 	}
@@ -430,6 +430,13 @@ func (e *Engine) regionOfNoted(st *State, key string, obj *smt.Term) *smt.Term {
 		st.Assume(c.Eq(c.App("region_kind", smt.BV64, r), e.kindConst("regionkind$"+key)))
 		st.Assume(c.Not(c.Eq(r, e.i64(0))))
 		st.Assume(c.Select(e.allocMap(st), r))
+		if entryReachable(obj) {
+			// the array embedded in an object that existed at entry is none of the regions
+			// allocated since
+			for _, f := range st.Fresh {
+				st.Assume(c.Not(c.Eq(r, f)))
+			}
+		}
 		g := c.App("region_ghost", smt.Bool, r)
 		if strings.Contains(key, ".ghost") {
 			st.Assume(g)
